@@ -244,7 +244,114 @@ def _submit_range(ex, batch, lo, hi, chunk, want_trace):
     return futs
 
 
+def _phase_run(ex, batch, tier, runs, budget_s, t0, want_trace, progress):
+    mod = batch.mod
+    if tier == "quick":
+        total = runs or int(os.environ.get("QSIM_RUNS", mod.QUICK_RUNS))
+        chunk = max(1, min(200, total // (NPROC * 4) or 1))
+        progress["hi"] = total
+        futs = _submit_range(ex, batch, 0, total, chunk, want_trace)
+        for f in as_completed(futs, timeout=CHUNK_WALL_S * 2):
+            for i, seed, res in f.result():
+                batch.absorb(i, seed, res)
+    else:
+        budget = budget_s or float(os.environ.get("QSIM_BUDGET_S", "600"))
+        wave = getattr(mod, "THOROUGH_WAVE", max(NPROC * 20, mod.QUICK_RUNS // 4))
+        chunk = max(1, wave // (NPROC * 4))
+        hi = 0
+        cap = runs or 10 ** 9
+        while time.time() - t0 < budget and hi < cap and len(batch.viol_runs) < 50:
+            lo, hi = hi, min(cap, hi + wave)
+            progress["hi"] = hi
+            futs = _submit_range(ex, batch, lo, hi, chunk, want_trace)
+            for f in as_completed(futs, timeout=CHUNK_WALL_S * 2):
+                for i, seed, res in f.result():
+                    batch.absorb(i, seed, res)
+    hi = progress["hi"]
+    # determinism re-check: re-run a sample of the seeds in other tasks
+    frac = 0.05 if tier == "thorough" else 0.02
+    nre = max(8, int(hi * frac))
+    step = max(1, hi // nre)
+    re_idx = list(range(0, hi, step))[:nre][:2000]
+    futs = []
+    rchunk = max(1, len(re_idx) // (NPROC * 2))
+    for a in range(0, len(re_idx), rchunk):
+        futs.append(ex.submit(exec_chunk, batch.prop, tier, batch.verif_seed, re_idx[a : a + rchunk][::-1], set()))
+    for f in as_completed(futs, timeout=CHUNK_WALL_S * 2):
+        for i, seed, res in f.result():
+            batch.absorb(i, seed, res, recheck=True)
+
+
+def _exec_range_subprocess(prop, tier, verif_seed, idxs):
+    """Run some run indices in a separate interpreter; returns (returncode, results or None)."""
+    import tempfile
+
+    fd, out = tempfile.mkstemp(prefix="qsim-range-", suffix=".json")
+    os.close(fd)
+    try:
+        env = dict(os.environ, VERIF_SEED=str(verif_seed), PYTHONDONTWRITEBYTECODE="1")
+        p = subprocess.run(
+            [sys.executable, "-B", os.path.join(VERIF_DIR, "qsim", "cli.py"), prop, "--tier", tier, "--exec-indices", ",".join(map(str, idxs)), "--out", out],
+            env=env, cwd=VERIF_DIR, capture_output=True, text=True, timeout=CHUNK_WALL_S,
+        )
+        if p.returncode == 0:
+            with open(out) as f:
+                return 0, json.load(f)
+        return p.returncode, None
+    except subprocess.TimeoutExpired:
+        return "timeout", None
+    finally:
+        if os.path.exists(out):
+            os.unlink(out)
+
+
+def exec_indices(prop, tier, verif_seed, idxs, out_path):
+    worker_init(REPO)
+    res = exec_chunk(prop, tier, verif_seed, idxs, set())
+    with open(out_path, "w") as f:
+        json.dump(res, f, default=str)
+    return 0
+
+
+def crash_hunt(batch, pending):
+    """A worker interpreter died (segfault, bus error, os._exit ...) while executing the code under
+    test.  Re-run the unfinished run indices in separate interpreters, bisecting the groups that
+    die, until the culprit runs are isolated.  Those are violations: the process under test crashed."""
+    from concurrent.futures import ThreadPoolExecutor
+
+    crashes = []
+    groups = [pending[i : i + 64] for i in range(0, len(pending), 64)]
+
+    def work(idxs):
+        found = []
+        stack = [idxs]
+        while stack:
+            g = stack.pop()
+            rc, res = _exec_range_subprocess(batch.prop, batch.tier, batch.verif_seed, g)
+            if rc == 0:
+                found.append(("ok", res))
+            elif len(g) == 1:
+                found.append(("crash", (g[0], rc)))
+            else:
+                mid = len(g) // 2
+                stack.append(g[mid:])
+                stack.append(g[:mid])
+        return found
+
+    with ThreadPoolExecutor(max_workers=NPROC) as tp:
+        for found in tp.map(work, groups):
+            for kind, payload in found:
+                if kind == "ok":
+                    for i, seed, res in payload:
+                        batch.absorb(i, seed, res)
+                else:
+                    crashes.append(payload)
+    return crashes
+
+
 def run_batch(prop, tier, verif_seed, runs=None, budget_s=None):
+    from concurrent.futures.process import BrokenProcessPool
+
     t0 = time.time()
     batch = Batch(prop, tier, verif_seed)
     mod = batch.mod
@@ -252,43 +359,17 @@ def run_batch(prop, tier, verif_seed, runs=None, budget_s=None):
     want_trace = {0, 1, 2}
     exit_code = 0
     lines = []
+    crashes = []
+    progress = {"hi": 0}
     try:
+        try:
+            with _pool() as ex:
+                _phase_run(ex, batch, tier, runs, budget_s, t0, want_trace, progress)
+        except BrokenProcessPool:
+            pending = [i for i in range(progress["hi"]) if i not in batch.digests and i not in {e[0] for e in batch.harness_errors}]
+            batch.probes["worker_died_runs_rerun_in_isolation"] += len(pending)
+            crashes = crash_hunt(batch, pending)
         with _pool() as ex:
-            if tier == "quick":
-                total = runs or int(os.environ.get("QSIM_RUNS", mod.QUICK_RUNS))
-                chunk = max(1, min(200, total // (NPROC * 4) or 1))
-                futs = _submit_range(ex, batch, 0, total, chunk, want_trace)
-                for f in as_completed(futs, timeout=CHUNK_WALL_S * 2):
-                    for i, seed, res in f.result():
-                        batch.absorb(i, seed, res)
-                hi = total
-            else:
-                budget = budget_s or float(os.environ.get("QSIM_BUDGET_S", "600"))
-                wave = getattr(mod, "THOROUGH_WAVE", max(NPROC * 20, mod.QUICK_RUNS // 4))
-                chunk = max(1, wave // (NPROC * 4))
-                hi = 0
-                cap = runs or 10 ** 9
-                while time.time() - t0 < budget and hi < cap and len(batch.viol_runs) < 50:
-                    lo, hi = hi, min(cap, hi + wave)
-                    futs = _submit_range(ex, batch, lo, hi, chunk, want_trace)
-                    for f in as_completed(futs, timeout=CHUNK_WALL_S * 2):
-                        for i, seed, res in f.result():
-                            batch.absorb(i, seed, res)
-            # determinism re-check: re-run a sample of the seeds in other tasks
-            frac = 0.05 if tier == "thorough" else 0.02
-            nre = max(8, int(hi * frac))
-            step = max(1, hi // nre)
-            re_idx = list(range(0, hi, step))[:nre]
-            if tier == "thorough":
-                re_idx = re_idx[: max(8, int(2000))]
-            futs = []
-            rchunk = max(1, len(re_idx) // (NPROC * 2))
-            for a in range(0, len(re_idx), rchunk):
-                futs.append(ex.submit(exec_chunk, prop, tier, verif_seed, re_idx[a : a + rchunk][::-1], set()))
-            for f in as_completed(futs, timeout=CHUNK_WALL_S * 2):
-                for i, seed, res in f.result():
-                    batch.absorb(i, seed, res, recheck=True)
-
             # ---- violations: classify, minimise, replay ----------------------
             groups = {}
             for i, seed, viols in batch.viol_runs:
@@ -317,6 +398,18 @@ def run_batch(prop, tier, verif_seed, runs=None, budget_s=None):
                 lines.append(f"VIOLATION property={prop} replay={path}")
                 lines.append(f"  rule={rule} runs={len(members)} first_seed={seed} msg={v['msg']}")
                 exit_code = 1
+        if crashes:
+            os.makedirs(REPLAY_DIR, exist_ok=True)
+            i, rc = sorted(crashes)[0]
+            seed = run_seed(verif_seed, prop, tier, i)
+            rule = f"CRASH:{rc}"
+            v = {"rule": rule, "msg": f"the interpreter executing this run died (exit status {rc}): the code under test crashed the process", "detail": {"status": str(rc)}}
+            path = write_replay(prop, seed, tier, mod.generate(seed, tier), rule, v, {"reproduced": None, "tries": 0})
+            if not verify_replay(prop, path, "CRASH"):
+                batch.probes["replay_not_reproducible"] += 1
+            lines.append(f"VIOLATION property={prop} replay={path}")
+            lines.append(f"  rule={rule} runs={len(crashes)} first_seed={seed} msg={v['msg']}")
+            exit_code = 1
     except Exception as e:  # noqa: BLE001  broken pool, timeout, ...
         batch.harness_errors.append((-1, -1, "".join(traceback.format_exception(type(e), e, e.__traceback__))))
     if batch.harness_errors:
@@ -371,6 +464,16 @@ def verify_replay(prop, path, rule):
 def replay(prop, path):
     with open(path) as f:
         doc = json.load(f)
+    if str(doc.get("rule", "")).startswith("CRASH") and not os.environ.get("QSIM_REPLAY_CHILD"):
+        # the recorded violation killed the interpreter: replay it in a child and look at how it ends
+        env = dict(os.environ, QSIM_REPLAY_CHILD="1", PYTHONDONTWRITEBYTECODE="1")
+        p = subprocess.run([sys.executable, "-B", os.path.join(VERIF_DIR, "qsim", "cli.py"), prop, "--replay", path], env=env, cwd=VERIF_DIR, capture_output=True, text=True, timeout=CHUNK_WALL_S)
+        if p.returncode not in (0, 1, 2):
+            print(f"VIOLATION property={prop} replay={path}")
+            print(f"  rule=CRASH:{p.returncode} msg=replaying this plan kills the interpreter (exit status {p.returncode})")
+            return 1
+        sys.stdout.write(p.stdout)
+        return p.returncode
     worker_init(REPO)
     res = execute_plan(prop, doc["plan"])
     if "harness_error" in res:
